@@ -81,6 +81,10 @@ func Round(pkg *packages.Package, exempt map[string]bool, counter *int) (*Result
 			n.cur = fd
 			n.curFile = f
 			n.curObj, _ = n.info.Defs[fd.Name].(*types.Func)
+			if n.mutated == nil {
+				n.mutated = map[*ast.FuncDecl]bool{}
+			}
+			before := len(n.log)
 			if n.inlineExprHelpers(fd) {
 				changed = true
 			} else {
@@ -104,6 +108,10 @@ func Round(pkg *packages.Package, exempt map[string]bool, counter *int) (*Result
 			}
 			if n.dropDeadLiterals(fd) {
 				changed = true
+				n.mutated[fd] = true
+			}
+			if len(n.log) != before {
+				n.mutated[fd] = true
 			}
 		}
 		if !changed {
@@ -146,6 +154,9 @@ type normalizer struct {
 	curObj      *types.Func
 	log         []string
 	needImports map[*ast.File][][2]string
+	// mutated: declarations whose body was rewritten in this round. Their new nodes carry no type information, so they
+	// cannot be cloned-and-renamed as a callee before the next round has type-checked them again.
+	mutated map[*ast.FuncDecl]bool
 }
 
 // dropDeadLiterals removes "var x T = func(){...}; _ = x" pairs left behind when every call of x was inlined: the dead
@@ -674,7 +685,7 @@ func (n *normalizer) resolve(call *ast.CallExpr) *callee {
 	if fd == nil {
 		fd = n.decls[obj]
 	}
-	if fd == nil || fd.Body == nil {
+	if fd == nil || fd.Body == nil || n.mutated[fd] {
 		return nil
 	}
 	sig := obj.Type().(*types.Signature)
@@ -890,9 +901,9 @@ func (n *normalizer) inlinableBody(c *callee) bool {
 		case *ast.DeferStmt:
 			total++
 		case *ast.LabeledStmt:
-			ok = false
+			// labels are renamed with the other objects of the body (an earlier expansion left L_inl* labels behind)
 		case *ast.BranchStmt:
-			if s.Tok == token.GOTO || s.Label != nil {
+			if s.Tok == token.GOTO {
 				ok = false
 			}
 		case *ast.CallExpr:
@@ -980,9 +991,7 @@ func (n *normalizer) inlinableBody(c *callee) bool {
 	ast.Inspect(c.body, func(x ast.Node) bool {
 		if id, isID := x.(*ast.Ident); isID && id.Name != "_" {
 			if o := n.info.Defs[id]; o != nil {
-				if _, isLabel := o.(*types.Label); !isLabel {
-					c.objs[o] = true
-				}
+				c.objs[o] = true
 			}
 		}
 		return true
@@ -1456,7 +1465,7 @@ func (n *normalizer) inlineExprHelpers(fd *ast.FuncDecl) bool {
 			return true
 		}
 		fd2 := n.decls[obj.Origin()]
-		if fd2 == nil || fd2.Body == nil || len(fd2.Body.List) != 1 {
+		if fd2 == nil || fd2.Body == nil || len(fd2.Body.List) != 1 || n.mutated[fd2] {
 			return true
 		}
 		ret, isRet := fd2.Body.List[0].(*ast.ReturnStmt)
